@@ -8,6 +8,7 @@ import (
 	"os"
 	"path/filepath"
 	"sync"
+	"sync/atomic"
 	"time"
 
 	corecrl "github.com/notaryproject/notation-core-go/revocation/crl"
@@ -123,12 +124,15 @@ func Run(sp RunSpec) ([]Event, error) {
 		time.Sleep(200 * time.Microsecond)
 	}
 	var wg sync.WaitGroup
+	var writersActive atomic.Int64
+	writersActive.Store(int64(len(sp.WriterIDs)))
 	client := 0
 	for _, ids := range sp.WriterIDs {
 		wg.Add(1)
 		client++
 		go func(client int, ids []int64) {
 			defer wg.Done()
+			defer writersActive.Add(-1)
 			c := cacheFor()
 			r := &rng{s: sp.Seed + uint64(client)*7919}
 			for _, id := range ids {
@@ -150,7 +154,11 @@ func Run(sp RunSpec) ([]Event, error) {
 			defer wg.Done()
 			c := cacheFor()
 			r := &rng{s: sp.Seed + uint64(client)*104729}
-			for i := 0; i < sp.ReadsEach; i++ {
+			after := 0
+			for i := 0; i < sp.ReadsEach || (sp.OutlastWriters && after < 3 && i < 100000); i++ {
+				if i >= sp.ReadsEach && writersActive.Load() == 0 {
+					after++
+				}
 				u := sp.URLs[int(r.u64()%uint64(len(sp.URLs)))]
 				e := Event{Proc: sp.Proc, Client: client, Op: "get", URL: u, Call: MonoNow()}
 				b, err := c.Get(ctx, u)
